@@ -89,6 +89,14 @@ def _rand_attrs(rng):
     for i in range(len(cc)):
         if rng.random() < 0.15:
             cc[i] = rng.randrange(256)
+    # control modes and line speeds: nothing curtsies has a reason to touch, everything a restore has to keep
+    for f in (_termios.CSTOPB, _termios.CLOCAL, _termios.PARENB, _termios.PARODD, _termios.HUPCL):
+        if rng.random() < 0.2:
+            a[2] ^= f
+    if rng.random() < 0.2:
+        a[2] = (a[2] & ~_termios.CSIZE) | rng.choice((_termios.CS7, _termios.CS8, _termios.CS6))
+    if rng.random() < 0.3:
+        a[4] = a[5] = rng.choice((_termios.B9600, _termios.B19200, _termios.B115200))
     return a
 
 
@@ -120,7 +128,8 @@ class _Gen:
         elif kind == "FullscreenWindow":
             nd["args"] = {"hide_cursor": r.random() < 0.7}
         elif kind == "CursorAwareWindow":
-            nd["args"] = {"hide_cursor": r.random() < 0.7, "keep_last_line": r.random() < 0.5}
+            nd["args"] = {"hide_cursor": r.random() < 0.7, "keep_last_line": r.random() < 0.5,
+                          "callback": r.random() < 0.7}      # without extra_bytes_callback, type-ahead makes a query raise
         elif kind == "Termmode":
             nd["args"] = {"attrs": _rand_attrs(r)}
         nd["body"] = self.body(stack + [nd], depth + 1)
@@ -187,7 +196,10 @@ class _Gen:
             st = {"op": "send", "on": inputs[-1]["id"] if r.random() < 0.8 else r.choice(inputs)["id"], "timeout": t,
                   "arrive": "", "arrive_delay": None, "sigint_delay": None}
             m = r.random()
-            data = r.choice((b"a", b"\x1b[A", b"hello", b"\xc3\xa9", b"x" * 20, b"\x1b"))
+            data = r.choice((b"a", b"\x1b[A", b"hello", b"\xc3\xa9", b"x" * 20, b"\x1b", b"\xe2\x82\xac", b"\x1b[15~",
+                             b"\xc3\x28", b"ab\xff"))
+            if len(data) > 1 and r.random() < 0.25:
+                st["arrive_split"] = r.randint(1, len(data) - 1)    # the key arrives in two pieces
             if m < 0.35:
                 st["arrive"] = data.hex()                      # already there
             elif m < 0.65:
@@ -214,7 +226,10 @@ class _Gen:
             cr = r.randrange(n) if n else 0
             self.last_render = {"op": "render", "on": wnode["id"], "rows": rows, "cursor": [cr, r.randrange(self.w)]}
             return planmod.clone(self.last_render)
-        return {"op": "query", "on": caw[-1]["id"]}
+        q = {"op": "query", "on": caw[-1]["id"], "typeahead": "", "reply_delay": r.choice((0, 0, 0, 0.3))}
+        if r.random() < 0.35:
+            q["typeahead"] = r.choice((b"a", b"ls\n", b"\x1b[A", b"\xc3\xa9")).hex()
+        return q
 
 
 def gen_plan(seed, tier, index=0, avoid=()):
@@ -260,6 +275,14 @@ def gen_plan(seed, tier, index=0, avoid=()):
             outer["body"].append({"op": "send", "on": outer["id"], "timeout": 0.5, "arrive": "", "arrive_delay": None,
                                   "sigint_delay": rng.choice((None, 0.1))})
         tree = [outer]
+    elif shape < 0.68:
+        # the README pattern: a fresh object for every use (`with Input() as ...:` in a loop), dropped afterwards.
+        # What an object that no longer exists left open can never be closed: "repeated use leaks no descriptors"
+        first = g.node(rng.choice(("Input", "Input", "Input", "CursorAwareWindow", "Cbreak")), [], 0)
+        repeat = rng.randint(3, 5)
+        for _ in range(repeat):
+            tree.append({"ctx": "Try", "id": g.new_id("y"), "body": [_fresh_ids(planmod.clone(first), g)]})
+            tree.append({"op": "drop_objects"})
     else:
         for _ in range(rng.choice((1, 1, 2, 3))):
             kind = rng.choice(("Input", "Input", "FullscreenWindow", "CursorAwareWindow", "Cbreak", "Nonblocking", "Termmode"))
@@ -451,6 +474,8 @@ def _count_points(p):
             elif "ctx" in it:
                 walk(it["body"])
                 n[0] += 1          # end of this body
+            elif it["op"] == "drop_objects":
+                pass
             else:
                 if it["op"] == "send":
                     sends.append(n[0])
@@ -466,10 +491,15 @@ def _variants(p, info):
         q = planmod.clone(p)
         q["crash"] = {"at": k, "kind": "base" if k % 2 == 0 else "exc"}
         out.append(q)
-    # once more with the kinds swapped at a few points
-    for k in range(0, npoints, 3):
+    # once more with other kinds at some of the points: the other one of the two, and the exceptions applications
+    # really end with - sys.exit() inside the contexts, ^C between two operations, a generator being closed
+    for n_, k in enumerate(range(0, npoints, 2)):
         q = planmod.clone(p)
-        q["crash"] = {"at": k, "kind": "exc" if k % 2 == 0 else "base"}
+        q["crash"] = {"at": k, "kind": ("exc" if k % 2 == 0 else "base", "systemexit", "kbint", "generatorexit")[n_ % 4]}
+        out.append(q)
+    for j in info.get("queries", ()):
+        q = planmod.clone(p)
+        q["crash"] = {"sigint_at_query": j}
         out.append(q)
     for j in info["blocked_sends"]:
         # SIGINT at more than one moment of the blocked request: right after it blocks, and late
@@ -483,7 +513,7 @@ def _variants(p, info):
             q["crash"] = {"eio_at_send": j, "eio_read": k}      # the k-th read of the stream inside that request
             out.append(q)
     rep = p.get("repeat") or 0
-    if rep and len(p["tree"]) == rep and npoints % rep == 0:
+    if rep and len([t_ for t_ in p["tree"] if t_.get("ctx") == "Try"]) == rep and npoints % rep == 0:
         # the same fault in every one of the identical uses
         per = npoints // rep
         _, sends = _count_points(p)
@@ -493,12 +523,23 @@ def _variants(p, info):
             q["crash"] = {"at_rel": k, "kind": "exc" if k % 2 == 0 else "base", "every_use": True}
             out.append(q)
         for j in [j for j in sorted(set(info["blocked_sends"])) if nsend and j < nsend]:
-            q = planmod.clone(p)
-            q["crash"] = {"sigint_at_send_rel": j, "delay": 0.0001, "every_use": True}
-            out.append(q)
+            for delay in (0.0001, "late"):
+                q = planmod.clone(p)
+                q["crash"] = {"sigint_at_send_rel": j, "delay": delay, "every_use": True}
+                out.append(q)
         for j in [j for j in sorted(set(info["reading_sends"])) if nsend and j < nsend]:
+            for k in range(1, min(info.get("reads_in_send", {}).get(str(j), 1), 3) + 1):
+                q = planmod.clone(p)
+                q["crash"] = {"eio_at_send_rel": j, "eio_read": k, "every_use": True}
+                out.append(q)
+        nq = len(info.get("queries", ())) // rep if len(info.get("queries", ())) % rep == 0 else 0
+        for j in range(nq):
             q = planmod.clone(p)
-            q["crash"] = {"eio_at_send_rel": j, "eio_read": 1, "every_use": True}
+            q["crash"] = {"sigint_at_query_rel": j, "every_use": True}
+            out.append(q)
+        for k in range(per):
+            q = planmod.clone(p)
+            q["crash"] = {"at_rel": k, "kind": ("systemexit", "kbint", "generatorexit")[k % 3], "every_use": True}
             out.append(q)
     for q in out:
         q["enumerate"] = False
@@ -556,6 +597,32 @@ def _rename(items, mapping):
             _rename(it["body"], mapping)
 
 
+def _all_ids(items, out):
+    for it in items:
+        if "ctx" in it:
+            out.append(it["id"])
+            _all_ids(it["body"], out)
+    return out
+
+
+def _fresh_ids(node, g):
+    """a copy of a use in which every object is a new one"""
+    mapping = dict((i, g.new_id(i[0])) for i in _all_ids([node], []))
+    _rename([node], mapping)
+    for it in _walk_items([node]):
+        if it.get("of") in mapping:
+            it["of"] = mapping[it["of"]]
+    return node
+
+
+def _walk_items(items):
+    for it in items:
+        yield it
+        if "ctx" in it:
+            for x in _walk_items(it["body"]):
+                yield x
+
+
 def _fresh_fullscreen(node, g):
     """a FullscreenWindow object can be entered only once (its blessed fullscreen() context is made in __init__):
     every copy of a body gets window objects of its own"""
@@ -569,6 +636,10 @@ def _use_key(body, how):
     b = planmod.clone(body)
     _rename(b, dict((i, "F%d" % n) for n, i in enumerate(_fullscreen_ids(b, []))))
     return (json.dumps(b, sort_keys=True), how)
+
+
+def _same_handlers(a, b):
+    return all(_same_handler(a.get(n_, _signal.SIG_DFL), b.get(n_, _signal.SIG_DFL)) for n_ in set(a) | set(b))
 
 
 def _same_handler(a, b):
@@ -606,7 +677,7 @@ class _Exec:
         self.crash = p.get("crash") or {}
         self.open_kinds = []
         self.nb0 = bool(s.tty.flags & _os.O_NONBLOCK)
-        self.info = {"blocked_sends": [], "reading_sends": [], "reads_in_send": {}}
+        self.info = {"blocked_sends": [], "reading_sends": [], "reads_in_send": {}, "queries": []}
         self.callbacks = {}
         self.uses = {}            # object id -> completed enter/exit cycles
         self.owned = {}           # object id -> descriptors it opened (in any use or operation) and still holds
@@ -615,7 +686,9 @@ class _Exec:
         self.growths = {}         # object id -> uses that repeated the previous use exactly and still held more
         self.last_use = {}        # object id -> (body, how it was left) of the previous use
         self.frames = []          # open contexts, outermost first: {"id", "excused"}
-        self.use_base = self.use_send_base = 0      # first crash point / request of the current Try part
+        self.orphans = {}         # id of an object that no longer exists -> descriptors it opened that are still open
+        self.use_base = self.use_send_base = self.use_query_base = 0     # first crash point / request / query of the current Try part
+        self.query_no = 0
 
     # ---- state snapshots ------------------------------------------------------------------
     def snap(self):
@@ -624,15 +697,18 @@ class _Exec:
                 "flags": self.s.tty.flags,
                 "sigint": k.sig.handlers.get(_signal.SIGINT),
                 "wakeup_fd": k.sig.wakeup_fd,
+                "handlers": dict((n_, h_) for n_, h_ in k.sig.handlers.items() if n_ != _signal.SIGINT),
+                "sigmask": frozenset(k.sig.blocked),
                 "fds": [fd for fd in k.open_files() if fd not in self.trigger_fds],
                 "cursor_visible": t.cursor_visible,
                 "active": t.active,
                 "modes": (t.autowrap, t.top, t.bot == t.h - 1, t.pen),
+                "other_modes": frozenset(t.other_modes),
                 "main": t.snapshot_screen("main"),
                 "main_cursor": (t.r, t.c, t.pending) if t.active == "main" else t.saved["main"][:3] if t.saved["main"] else None,
                 "scrollback": len(t.scrollback)}
 
-    LIGHT = ("attrs", "flags", "sigint", "wakeup_fd", "cursor_visible", "active", "modes")
+    LIGHT = ("attrs", "flags", "sigint", "wakeup_fd", "cursor_visible", "active", "modes", "handlers", "sigmask", "other_modes")
 
     def snap_light(self):
         k, t = self.kernel, self.term
@@ -640,10 +716,13 @@ class _Exec:
                 "flags": self.s.tty.flags,
                 "sigint": k.sig.handlers.get(_signal.SIGINT),
                 "wakeup_fd": k.sig.wakeup_fd,
+                "handlers": dict((n_, h_) for n_, h_ in k.sig.handlers.items() if n_ != _signal.SIGINT),
+                "sigmask": frozenset(k.sig.blocked),
                 "fds": [fd for fd in k.open_files() if fd not in self.trigger_fds],
                 "cursor_visible": t.cursor_visible,
                 "active": t.active,
-                "modes": (t.autowrap, t.top, t.bot == t.h - 1, t.pen)}
+                "modes": (t.autowrap, t.top, t.bot == t.h - 1, t.pen),
+                "other_modes": frozenset(t.other_modes)}
 
     def attribute_op(self, target, pre):
         """an operation addressed to the object `target` has just run.  Descriptors it opened are that object's; and
@@ -656,7 +735,8 @@ class _Exec:
             self.ever_owned.update(new)
         idx = [i for i, f in enumerate(self.frames) if f["id"] == target]
         if idx and idx[-1] < len(self.frames) - 1:
-            changed = [c for c in self.LIGHT if (not _same_handler(pre[c], post[c]) if c == "sigint" else pre[c] != post[c])]
+            changed = [c for c in self.LIGHT if (not _same_handler(pre[c], post[c]) if c == "sigint" else
+                                                 not _same_handlers(pre[c], post[c]) if c == "handlers" else pre[c] != post[c])]
             if changed:
                 self.world.probe("outer_object_changed_state_inside_inner_context")
                 for f in self.frames[idx[-1] + 1:]:
@@ -679,6 +759,20 @@ class _Exec:
         if after["wakeup_fd"] != before["wakeup_fd"] and "wakeup_fd" not in excused:
             _violate(self.res, "wakeup_fd_not_restored", self.point,
                      dict(where, before=before["wakeup_fd"], after=after["wakeup_fd"]))
+        # "restores what entering changed" beyond the components the statement lists by name: the handlers of other
+        # signals, the signal mask, further terminal modes (mouse reporting, bracketed paste, ...)
+        if not _same_handlers(after["handlers"], before["handlers"]) and "handlers" not in excused:
+            diff = sorted(n_ for n_ in set(after["handlers"]) | set(before["handlers"])
+                          if not _same_handler(after["handlers"].get(n_, _signal.SIG_DFL), before["handlers"].get(n_, _signal.SIG_DFL)))
+            _violate(self.res, "signal_handler_not_restored", self.point,
+                     dict(where, signals=[int(n_) for n_ in diff],
+                          after=[_name(after["handlers"].get(n_, _signal.SIG_DFL)) for n_ in diff]))
+        if after["sigmask"] != before["sigmask"] and "sigmask" not in excused:
+            _violate(self.res, "signal_mask_not_restored", self.point,
+                     dict(where, before=sorted(before["sigmask"]), after=sorted(after["sigmask"])))
+        if after["other_modes"] != before["other_modes"] and "other_modes" not in excused:
+            _violate(self.res, "terminal_mode_left_changed", self.point,
+                     dict(where, private_modes_before=sorted(before["other_modes"]), after=sorted(after["other_modes"])))
         # "repeated use leaks no file descriptors".  An object may hold descriptors of its own for as long as it
         # lives - created on its first use or lazily on a later one, closed and replaced as it likes; what it may
         # not do is hold more and more of them.  Judged where nothing else can explain growth: a use that repeats
@@ -734,6 +828,37 @@ class _Exec:
         c = self.crash
         return c.get(what) == j or (what + "_rel" in c and j - self.use_send_base == c[what + "_rel"])
 
+    def drop_objects(self, collect):
+        """the application lets go of every context object it is not inside of.  Descriptors an object opened that
+        are still open once the object is gone can never be closed by anybody"""
+        import gc
+        import weakref
+        inside = set(f["id"] for f in self.frames)
+        refs = {}
+        for oid in [o_ for o_ in self.objs if o_ not in inside]:
+            try:
+                refs[oid] = weakref.ref(self.objs[oid])
+            except TypeError:
+                refs[oid] = None
+            del self.objs[oid]
+            self.vals.pop(oid, None)
+        for key in [k_ for k_ in self.callbacks if k_[0] not in inside]:
+            del self.callbacks[key]
+        if collect:
+            gc.collect()
+        self.world.probe("objects_dropped")
+        still_open = set(self.kernel.open_files())
+        for oid, r in refs.items():
+            if r is None or r() is not None:
+                self.world.probe("dropped_object_still_referenced")
+                continue
+            left = self.owned.get(oid, set()) & still_open
+            if left:
+                self.orphans[oid] = sorted(left)
+        if len(self.orphans) >= 2:
+            _violate(self.res, "fd_leak", self.point,
+                     {"descriptors_left_open_by_objects_that_no_longer_exist": dict(self.orphans)})
+
     # ---- crash points ------------------------------------------------------------------
     def crash_point(self):
         k = self.point
@@ -745,7 +870,14 @@ class _Exec:
             self.res["states"].add("%s|%s|%d" % (">".join(self.open_kinds), self.crash["kind"], self.p["cfg"]["app_main"]))
             if self.open_kinds:
                 self.res["crashed_inside"] = True
-            raise (CrashBase if self.crash["kind"] == "base" else CrashExc)("injected at point %d" % k)
+            kind = self.crash["kind"]
+            if kind == "systemexit":
+                raise SystemExit(3)
+            if kind == "kbint":
+                raise KeyboardInterrupt()            # ^C between two operations
+            if kind == "generatorexit":
+                raise GeneratorExit()
+            raise (CrashBase if kind == "base" else CrashExc)("injected at point %d" % k)
 
     # ---- interpretation ------------------------------------------------------------------
     def run_items(self, items):
@@ -753,16 +885,20 @@ class _Exec:
             if it.get("ctx") == "Try":
                 # the application catches whatever leaves this part and carries on: contexts are used
                 # again after one of them was left by an exception
-                self.use_base, self.use_send_base = self.point, self.send_no
+                self.use_base, self.use_send_base, self.use_query_base = self.point, self.send_no, self.query_no
                 try:
                     self.run_items(it["body"])
-                except (CrashBase, CrashExc, KeyboardInterrupt, OSError) as e:
+                except (CrashBase, CrashExc, KeyboardInterrupt, OSError, SystemExit, GeneratorExit, ValueError) as e:
                     self.world.log.add("caught", type(e).__name__)
                     self.world.probe("carried_on_after_exception")
                     if not self.crash.get("every_use"):
                         self.crash = {}
             elif "ctx" in it:
                 self.run_ctx(it)
+            elif it.get("op") == "drop_objects":
+                self.drop_objects(True)
+                if self.res["violation"]:
+                    raise _Stop()
             else:
                 self.crash_point()
                 self.res["nsteps"] += 1
@@ -799,7 +935,8 @@ class _Exec:
             self.world.probe("fullscreen_in_scenario")
         elif kind == "CursorAwareWindow":
             o = CursorAwareWindow(out_stream=s.out, in_stream=s.inp, hide_cursor=a["hide_cursor"],
-                                  keep_last_line=a["keep_last_line"], extra_bytes_callback=lambda b: None)
+                                  keep_last_line=a["keep_last_line"],
+                                  extra_bytes_callback=(lambda b: None) if a.get("callback", True) else None)
             self.world.probe("cursoraware_in_scenario")
         elif kind == "Cbreak":
             o = Cbreak(s.inp)
@@ -827,6 +964,11 @@ class _Exec:
         if kind == "TermmodeOf":
             self.world.probe("termmode_reentered")
         how = "normal exit"
+        if kind == "CursorAwareWindow" and not (node.get("args") or {}).get("callback", True) and len(self.s.tty.inq):
+            # a window without extra_bytes_callback raises from its own first query when something was typed before
+            # it is entered; exceptions out of __enter__ are outside the property: nothing was typed
+            del self.s.tty.inq[:]
+            self.world.log.add("typeahead_discarded_before_callbackless_window")
         try:
             try:
                 val = obj.__enter__()
@@ -923,7 +1065,37 @@ class _Exec:
             if s.tty.attrs[3] & _termios.ICANON:
                 world.log.add("query_skipped_canonical_mode")   # (the scenario itself switched line buffering back on)
                 return
-            self.objs[it["on"]].get_cursor_position()
+            j = self.query_no
+            self.query_no += 1
+            self.info["queries"].append(j)
+            ahead = bytes.fromhex(it.get("typeahead", ""))
+            if ahead:
+                kernel.arrive(s.fd, ahead)      # typed before the terminal's report: raises ValueError without a callback
+                world.probe("query_with_typeahead")
+            # (with the stream in non-blocking mode the library polls for the report in a loop that never blocks:
+            # virtual time would stand still, so the terminal answers at once there)
+            blocking = not (s.tty.flags & _os.O_NONBLOCK)
+            s.reply_delay = it.get("reply_delay", 0) if blocking else 0
+            if blocking and (self.crash.get("sigint_at_query") == j or
+                             ("sigint_at_query_rel" in self.crash and j - self.use_query_base == self.crash["sigint_at_query_rel"])):
+                # the terminal is slow to answer and ^C arrives while the window waits for the report
+                s.reply_delay = 0.5
+                world.after(0.0001, "signal", int(_signal.SIGINT))
+                world.fault("sigint_during_cursor_query")
+            try:
+                self.objs[it["on"]].get_cursor_position()
+            except KeyboardInterrupt:
+                self._withdraw_signals()
+                world.probe("keyboardinterrupt_from_cursor_query")
+                self.res["crashed_inside"] = True
+                raise
+            except ValueError:
+                world.probe("cursor_query_raised_valueerror")
+                self.res["crashed_inside"] = True
+                raise
+            finally:
+                s.reply_delay = 0
+                self._withdraw_signals()
             return
         inp = self.objs[it["on"]]
         if op == "trigger":
@@ -958,12 +1130,18 @@ class _Exec:
         elif data and s.tty.attrs[6][_termios.VMIN] > len(data) and s.tty.attrs[6][_termios.VTIME] == 0:
             # (the scenario set MIN > 1: the tty counts as readable only once MIN characters are there)
             data += b"x" * (s.tty.attrs[6][_termios.VMIN] - len(data))
+        rest = b""
+        if data and it.get("arrive_split") and data == bytes.fromhex(it["arrive"]) and 0 < it["arrive_split"] < len(data):
+            data, rest = data[:it["arrive_split"]], data[it["arrive_split"]:]     # the key arrives in two pieces
+            world.probe("key_arrives_in_two_pieces")
         if data:
             if it["arrive_delay"] is None:
                 kernel.arrive(s.fd, data)
                 world.log.add("typed", data)
             else:
                 world.after(it["arrive_delay"], "arrive", data.hex())
+            if rest:
+                world.after((it["arrive_delay"] or 0) + 0.004, "arrive", rest.hex())
         if it["sigint_delay"] is not None:
             world.after(it["sigint_delay"], "signal", int(_signal.SIGINT))
         blocked0 = world.probes.get("select_blocked", 0)
@@ -991,6 +1169,7 @@ class _Exec:
                 if s.tty.read_count > reads0:
                     self.info["reading_sends"].append(j)
                     self.info["reads_in_send"][str(j)] = s.tty.read_count - reads0
+                kernel.read_faults.pop(s.fd, None)      # (a read fault meant for this request does not wait for a later read)
                 nb = bool(s.tty.flags & _os.O_NONBLOCK)
                 world.log.add("after_send", j, nb)
                 if nb and not nb_before:
@@ -1055,7 +1234,7 @@ def _run_one(p, keep_log):
                     "platform": cfg.get("platform")}, None, keep_log)
     world, term, kernel = s.world, s.term, s.kernel
     res = {"violation": None, "error": None, "probes": world.probes, "faults": world.faults,
-           "states": set(), "nsteps": 0, "info": {"blocked_sends": [], "reading_sends": [], "reads_in_send": {}}}
+           "states": set(), "nsteps": 0, "info": {"blocked_sends": [], "reading_sends": [], "reads_in_send": {}, "queries": []}}
     try:
         # ---- arbitrary initial state ------------------------------------------------------
         for i in range(cfg["pre_lines"]):
@@ -1091,7 +1270,7 @@ def _run_one(p, keep_log):
                 ex.run_items(p["tree"])
             except _Stop:
                 pass
-            except (CrashBase, CrashExc, KeyboardInterrupt):
+            except (CrashBase, CrashExc, KeyboardInterrupt, SystemExit, GeneratorExit):
                 pass
             except (Quiescent, StepCap, HarnessError):
                 raise
@@ -1129,6 +1308,18 @@ def _run_one(p, keep_log):
             res["error"] = "step cap exceeded"
         res["info"] = ex.info
         if not res["violation"] and not res["error"]:
+            # after its curtsies session the application opens files of its own (they get the recycled descriptor
+            # numbers) and lets go of the context objects: a finalizer must not close what is not its own any more
+            ra, wa = kernel.pipe()
+            mine = [f for f in kernel.open_files() if f.startswith(("fd%d#" % ra, "fd%d#" % wa))]
+            ex.drop_objects(bool(p.get("enumerate")))
+            if any(f not in kernel.open_files() for f in mine):
+                _violate(res, "closed_foreign_descriptor", ex.point,
+                         {"closed": mine, "by": "a context object's finalizer, after the object's descriptors had been closed and re-used"})
+            for fd_ in (ra, wa):
+                if fd_ in kernel.fds:
+                    kernel.close(fd_)
+        if not res["violation"] and not res["error"]:
             last = ex.snap()
             held = set()
             for v_ in ex.owned.values():
@@ -1141,7 +1332,9 @@ def _run_one(p, keep_log):
                 at0 = list(first["attrs"])
                 at0[3] ^= _termios.ECHO
                 first = dict(first, attrs=at0)
-            for key in ("attrs", "flags", "wakeup_fd", "fds", "cursor_visible", "active"):
+            if not _same_handlers(last["handlers"], first["handlers"]):
+                _violate(res, "final_state_differs_signal_handlers", ex.point, {})
+            for key in ("attrs", "flags", "wakeup_fd", "fds", "cursor_visible", "active", "sigmask", "other_modes"):
                 if last[key] != first[key]:
                     _violate(res, "final_state_differs_" + key, ex.point, {"before": first[key], "after": last[key]})
             if not _same_handler(last["sigint"], first["sigint"]):
